@@ -61,7 +61,7 @@ def make_case(c):
     return {'setup': {'ndocs': c['ndocs'], 'flags': c['flags'], 'pre': c['pre']}, 'ops': [list(o) for o in c['ops']], 'excl': sorted(ACTIVE_EXCLUSIONS)}
 
 def run_case(case, ex):
-    return dh.run_case(case, ex, OPTABLE)
+    return dh.run_case(case, ex, case.get('optable') or OPTABLE)     # witnesses may carry their own (smaller) op table
 
 NONTRIV = ('rejected', 'cross-document', 'remove-after-insert')
 
